@@ -1,10 +1,10 @@
 SPECIFICATION Spec
-CONSTANTS MaxConn = 3
+CONSTANTS MaxConn = 2
  MaxBin = 1
- Flavours = {"nat", "int", "natreal"}
- MainIdx = {2, 3, 5, 6, 7}
+ Flavours = {"nat", "natreal"}
+ MainIdx = {1, 2, 3, 6}
  SideIdx = {4}
- RMainIdx = {1, 5}
+ RMainIdx = {1}
  RSideIdx = {3}
  N = 2
 INVARIANT TypeOK
